@@ -203,8 +203,18 @@ def run_check(modname: str, tier: str, seed: int, replay_path: str | None = None
                     raise item
                 else:
                     consume(item)
+            overflowed = 0
             for run, sp in runs:
+                # exact 32-bit arithmetic: an overflow ends that simulation shard (it is never silent); the scenarios it emitted before are valid,
+                # the rest of its budget is reported as skipped - never as pass or violation
+                if not run.ok and run.errors and any('verflow' in e for e in run.errors) and not any('Assert' in e or 'violated' in e for e in run.errors):
+                    overflowed += 1
+                    col.skipped['simulation_shard_stopped_out_of_arithmetic_range'] += 1
+                    run.ok = True
+                    run.cut = True
                 finish(run, sp)
+            if overflowed > shards // 2:
+                raise MachineryError(f'{overflowed} of {shards} simulation shards stopped by arithmetic overflow')
         drain(0)
         if os.environ.get('VERIF_DEBUG'):
             print(f'[debug] models + replay done at {time.time() - t0:.1f}s', file=sys.stderr)
